@@ -869,6 +869,7 @@ func (x *FnExec) instr(fr *frame, n *node, in ssa.Instruction) error {
 		}
 		x.storeAddr(st, a, x.scalar(v))
 	case *ssa.Convert:
+		x.convSt = st
 		env[in] = x.convert(x.value(fr, env, in.X), in.X.Type(), in.Type(), reach, in)
 	case *ssa.ChangeType:
 		v := x.value(fr, env, in.X)
@@ -1510,6 +1511,14 @@ func (x *FnExec) convert(v Val, from, to types.Type, reach string, in *ssa.Conve
 		if _, ok := tu.(*types.Slice); ok && isString(from) {
 			res := x.havocVal(in.Name(), to, reach)
 			x.q.assert(and(eq("(s_len "+res.S+")", "(strlen "+v.S+")"), not(eq("(s_arr "+res.S+")", "nil")), eq("(s_off "+res.S+")", x.q.intLit(0, nil))))
+			if el, ok := tu.(*types.Slice).Elem().Underlying().(*types.Basic); ok && el.Kind() == types.Uint8 && x.convSt != nil {
+				// the bytes of []byte(s) are a function of s (spec function strBlob)
+				x.q.declareSortOnce("Blob")
+				x.q.declareFun("lib_strblob", []string{"Str"}, "Blob")
+				fr := x.freshRef(x.convSt, in.Name()+"_bytes", reach) // the conversion allocates its result
+				x.q.assert(eq("(s_arr "+res.S+")", fr))
+				x.q.assert(eq(x.blobOf(x.convSt, res.S), "(lib_strblob "+v.S+")"))
+			}
 			return res
 		}
 		if isString(from) && isString(to) {
